@@ -52,8 +52,8 @@ def _try(pid, tier, root, prog, quiet):
         try:
             rep.verify_minimums()
         except AnalysisError as e:
-            if not rep.errors:
-                raise
+            # too few instances of one rule: the view is not fully analysed;
+            # findings of the other rules stand all the same (decided below)
             rep.errors.append(e)
         if rep.errors:
             is_known = _is_known(pid)
@@ -151,6 +151,25 @@ def run_consensus(pid, tier='quick', root='/repo', overlay=None, quiet=False,
             if c:
                 c[1] += 1
     rep0.findings = keep
+    # rules that could not be evaluated in view 0 (their recogniser stopped:
+    # no obligation counted) are decided by the normalised views alone
+    if rep0.errors and good:
+        blind = {rid for rid in set(rep0.rules) | {f.rule for n, r in good
+                                                    for f in r.findings}
+                 if rep0.counts.get(rid, [0, 0])[0] == 0}
+        name, base = good[0]
+        others = [{_fkey(f) for f in r.findings} | {_fkey(f, True)
+                                                    for f in r.findings}
+                  for n, r in good[1:]]
+        have = {f.key for f in rep0.findings}
+        for f in base.findings:
+            if f.rule in blind and f.key not in have and (
+                    is_known(f) or all(_fkey(f) in o or _fkey(f, True) in o
+                                       for o in others)):
+                rep0.findings.append(f)
+                rep0.info('consensus', f.where, 'finding of %s taken from '
+                          'the normalised view(s): the rule could not be '
+                          'evaluated on the tree as it is' % f.rule, f.loc)
     return rep0
 
 
